@@ -70,7 +70,7 @@ def _menu(tier):
         "foo": [("unknown-key", 1)],
     }
     top = {
-        "comment": [("valid", "edited")],
+        "comment": [("valid", "edited"), ("valid", "")],  # "" = the value the flow had before any edit (sets an earlier edit back)
         "marked": [("valid", ":red_circle:")],
         "foo": [("unknown-key", 42)],
     }
